@@ -10,15 +10,17 @@ EXTENDS TileAddr, Json, IOUtils, TLCExt
 
 Data == JsonDeserialize(IOEnv.TRACE_FILE)
 G == [ul |-> Data.grid.ul, bbox |-> Data.grid.bbox, tw |-> Data.grid.tw, th |-> Data.grid.th, res |-> Data.grid.res,
-      sn |-> Data.grid.sn, sd |-> Data.grid.sd, ms |-> Data.grid.ms, thr |-> Data.grid.thr]
+      sn |-> Data.grid.sn, sd |-> Data.grid.sd, ms |-> Data.grid.ms, thr |-> Data.grid.thr,
+      sf |-> Data.grid.sf, so |-> Data.grid.so]
+Local == ~G.sf /\ ~G.so
 T3(q) == <<q[1], q[2], q[3]>>
 B4(q) == <<q[1], q[2], q[3], q[4]>>
 
 \* --- capabilities = model ---
 TmsCapOK ==
   /\ Data.tms.w = G.tw /\ Data.tms.h = G.th
-  /\ Len(Data.tms.sets) = NLevels(G)
-  /\ \A i \in 1 .. NLevels(G) : Data.tms.sets[i][1] = i - 1 /\ Data.tms.sets[i][2] = Res(G, i - 1)
+  /\ Len(Data.tms.sets) = Cardinality(TmsOrders(G))
+  /\ \A i \in 1 .. Len(Data.tms.sets) : Data.tms.sets[i][1] = i - 1 /\ Data.tms.sets[i][2] = Res(G, TmsLevel(G, i - 1))
 TmsOriginOK == Data.tms.origin[1] = G.bbox[1] /\ Data.tms.origin[2] = G.bbox[2]
 WmtsCapOK ==
   /\ Data.wmts.offered = Offered(G, "wmts")
@@ -42,7 +44,9 @@ RealClient(c) ==
            Data.tms.origin[1] + (c.a[1] + 1) * Data.tms.w * upp, Data.tms.origin[2] + (c.a[2] + 1) * Data.tms.h * upp>>
 
 Binding(c) == B4(c.rect) = Served(G, c.f, T3(c.a))            \* real address mapping = model
-Property(c) == (c.f # "tms_nw" \/ Data.wmts.offered) => B4(c.rect) = RealClient(c)   \* C02 on observed values
+\* C02 on observed values.  /tiles?origin=nw has no capabilities of its own (compared with the WMTS matrices when
+\* WMTS is offered); KML has none either (TMS convention, only meaningful without a profile level shift)
+Property(c) == ((c.f # "tms_nw" \/ Data.wmts.offered) /\ (c.f # "kml" \/ Local)) => B4(c.rect) = RealClient(c)
 
 BadBinding == {i \in 1 .. Len(Data.tiles) : ~Binding(Data.tiles[i])}
 BadProperty == {i \in 1 .. Len(Data.tiles) : ~Property(Data.tiles[i])}
@@ -50,8 +54,8 @@ BadPropertyOf(f) == {i \in BadProperty : Data.tiles[i].f = f}
 First(S) == IF S = {} THEN 0 ELSE CHOOSE i \in S : \A j \in S : i <= j
 
 \* --- pure model statement for this grid: characterisation of when capabilities and addresses agree ---
-ModelOK == \A f \in Flavours : CapConsistent(G, G.bbox, f) <=> Expect(G, G.bbox, f)
-CrossOK == \A l \in Levels(G) : Offered(G, "wmts") => CrossService(G, l)
+ModelOK == Local => \A f \in Flavours : CapConsistent(G, G.bbox, f) <=> Expect(G, G.bbox, f)
+CrossOK == Local => \A l \in Levels(G) : Offered(G, "wmts") => CrossService(G, l)
 
 ASSUME PrintT(<<"verdict", [tmscap |-> TmsCapOK, tmsorigin |-> TmsOriginOK, wmtscap |-> WmtsCapOK, model |-> ModelOK, cross |-> CrossOK,
                             binding |-> First(BadBinding), nbinding |-> Cardinality(BadBinding),
